@@ -3,6 +3,7 @@ import re
 from .. import callgraph
 from ..vflow import Canon, strip_int_casts, strip_ptr_casts, derived_pointers
 from ..guards import Facts
+from ..retval import returns_via_edge
 from ..build import AnalysisBroken
 from . import shared, c12
 
@@ -148,6 +149,74 @@ def run(ctx):
         else:
             r.ok(inst + ': on the force path the list holds validated fragments only', func=f.name, loc=c.loc)
     r.require_min(2)
+
+    # ---------------- R20c / R20d the filter looks at every supplied fragment and has room for all of them
+    r = ctx.rule('R20c', 'the forced-check filter examines each of the num_fragments supplied fragments and is left early only with an error',
+                 'a filter that stops after k+m entries drops needed fragments behind duplicates: decode fails (or uses fewer) although enough valid fragments were supplied')
+    _, cp = shared.param_by_name(ctx, P, 'liberasurecode_decode', 'num_fragments')
+    vcalls = [i for i in f.insts() if i.op == 'call' and i.callee == '@is_invalid_fragment']
+    if not vcalls:
+        r.fail('filter loop', func=f.name, sig='no per-fragment validation call', loc=f.mod.src, msg='liberasurecode_decode never calls is_invalid_fragment')
+    for v in vcalls:
+        from ..poly import PolyCtx, Poly
+        from ..loops import loops_of, innermost, affine_in_t
+        pc = PolyCtx(P, f)
+        L = innermost(loops_of(P, f, pc), v.bb)
+        inst = f'liberasurecode_decode: filter loop around line {v.line}'
+        if L is None:
+            r.fail(inst, func=f.name, sig='validation outside a loop', loc=v.loc, msg='is_invalid_fragment is not called in a loop over the supplied fragments')
+            continue
+        want = Poly.atom(f'arg{cp}')
+        guards = [g_ for g_ in L.guards() if g_.block is L.header and L.trip(g_) is not None and L.trip(g_) == want]
+        probs = []
+        if not guards:
+            probs.append('no header guard with trip count num_fragments: ' + '; '.join(f'{g_.lhs} {g_.pred} {g_.bound}' for g_ in L.guards())[:120])
+        ld = f.defs.get(strip_ptr_casts(f, v.ops[1]))
+        okarg = False
+        if ld is not None and ld.op == 'load':
+            pt = L.ptr_at_iteration(*pc.ptr(ld.ops[0]))
+            ab = affine_in_t(pt[1]) if pt is not None else None
+            okarg = pt is not None and pt[0] == f'arg{ap}' and ab is not None and ab[0].is_zero() and ab[1] == Poly.const(8)
+        if not okarg:
+            probs.append('the validated element is not available_fragments[i] for i = 0 .. num_fragments-1')
+        # every other way out of the loop is an error return (negative), e.g. allocation failure - not a silent stop
+        bound_exits = {g_.exit_edge for g_ in guards}
+        for (b_, s_) in L.exits:
+            if (b_, s_) in bound_exits:
+                continue
+            vals = returns_via_edge(f, b_, s_)
+            if not vals or not all(isinstance(x, int) and x < 0 for x in vals):
+                probs.append(f'the loop can be left at line {b_.insts[-1].line} without an error (returns {sorted(map(str, vals))[:3]}): later fragments are never looked at')
+        if probs:
+            r.fail(inst, func=f.name, sig='filter: ' + probs[0][:90], loc=v.loc, msg='; '.join(probs))
+        else:
+            r.ok(inst + ': num_fragments iterations over available_fragments[i]', func=f.name, loc=v.loc)
+    r.require_min(1)
+
+    r = ctx.rule('R20d', 'the scratch list of validated fragments has room for num_fragments pointers',
+                 'the filter may keep every supplied fragment, duplicates included: a list sized k+m overflows when more are supplied')
+    for v in vcalls:
+        # the array that receives the kept fragments inside the filter loop
+        L = innermost(loops_of(P, f, pc), v.bb)
+        if L is None:
+            continue
+        allocs = []
+        for st in [i for b_ in L.body for i in b_.insts if i.op == 'store' and i.ty.endswith('*')]:
+            root, off = pc.ptr(st.ops[1])
+            a = [i for i in f.insts() if i.op == 'call' and i.res and Canon(P, f).val(i.res) == root and i.callee in ('@malloc', '@calloc', '@alloc_zeroed_buffer', '@get_aligned_buffer16')]
+            allocs += a
+        for a in {id(x): x for x in allocs}.values():
+            size = pc.val(a.ops[-1] if a.callee != '@calloc' else a.ops[0])
+            if a.callee == '@calloc':
+                size = pc.val(a.ops[0]) * pc.val(a.ops[1])
+            inst = f'liberasurecode_decode: list allocated at line {a.line}'
+            if size == Poly.atom(f'arg{cp}') * 8:
+                r.ok(inst + ' holds num_fragments pointers', func=f.name, loc=a.loc)
+            else:
+                r.fail(inst, func=f.name, sig=f'scratch list of {size} bytes', loc=a.loc,
+                       msg=f'the list that receives the validated fragments is allocated with {size} bytes, not 8 * num_fragments: with more than that many supplied fragments '
+                           '(duplicates) the filter writes past it')
+    r.require_min(1)
 
     r = ctx.rule('R20b', 'the validity verdict used by the filter is the full validation pipeline (C12 obligations)',
                  'a weakened verdict lets damaged fragments through the filter')
